@@ -118,6 +118,42 @@ def _(h, t, n1, n2, c1, c2, site):
     return h.attempt(h.getattr(t, 'add_facility'), name='fac', node_id='F1', site=site, interfaces=L(h, ifs))
 
 
+@failing('add_network_service.none_entry_after_a_good_interface')
+def _(h, t, n1, n2, c1, c2, site):
+    i1 = topo.iface(h, c1, 'nic1-p1')
+    return h.attempt(h.getattr(t, 'add_network_service'), name='br1', nstype=ServiceType.L2Bridge, interfaces=L(h, [i1, None]))
+
+
+@failing('add_network_service.same_interface_listed_twice')
+def _(h, t, n1, n2, c1, c2, site):
+    i1 = topo.iface(h, c1, 'nic1-p1')
+    i2 = topo.iface(h, c2, 'nic2-p1')
+    return h.attempt(h.getattr(t, 'add_network_service'), name='br1', nstype=ServiceType.L2Bridge, interfaces=L(h, [i1, i2, i1]))
+
+
+@failing('add_link.entry_that_is_not_an_interface')
+def _(h, t, n1, n2, c1, c2, site):
+    i1 = topo.iface(h, c1, 'nic1-p1')
+    return h.attempt(h.getattr(t, 'add_link'), name='l1', ltype=LinkType.Patch, interfaces=L(h, [i1, 'nic2-p1']))
+
+
+@failing('add_facility.interface_arguments_rejected')
+def _(h, t, n1, n2, c1, c2, site):
+    # the facility node and its service are created before the port's arguments are looked at
+    return h.attempt(h.getattr(t, 'add_facility'), name='fac', site=site, labels='vlan 100')
+
+
+@failing('add_facility.two_interfaces_of_one_name')
+def _(h, t, n1, n2, c1, c2, site):
+    ifs = [('a', h.call(Labels, vlan='100'), h.call(Capacities, bw=10)), ('a', h.call(Labels, vlan='200'), h.call(Capacities, bw=10))]
+    return h.attempt(h.getattr(t, 'add_facility'), name='fac', site=site, interfaces=L(h, ifs))
+
+
+@failing('add_switch.port_arguments_rejected')
+def _(h, t, n1, n2, c1, c2, site):
+    return h.attempt(h.getattr(t, 'add_switch'), name='sw', site=site, nports=2, portlabels='p')
+
+
 def make(name, run):
     class Op(Contract):
         target = 'fim.user.topology:Topology.add_node'
